@@ -103,7 +103,9 @@ def run_bin(path, args, timeout=3600, env=None, stdout_path=None):
 # ----------------------------------------------------------------------------- TLC
 
 def _java(xmx, xss, gc, extra=()):
-    return ["java", gc, "-Xmx" + xmx, "-Xss" + xss, "-DTLA-Library=" + TLA_LIB] + list(extra) + ["-cp", JAR, "tlc2.TLC"]
+    # Values.width: TLC pretty-prints tuples wider than 80 columns over several lines, which the single-line
+    # parsers below would silently miss (a lost REJECT is a false green) - make it print everything on one line.
+    return ["java", gc, "-Xmx" + xmx, "-Xss" + xss, "-DTLA-Library=" + TLA_LIB, "-Dtlc2.value.Values.width=100000000"] + list(extra) + ["-cp", JAR, "tlc2.TLC"]
 
 
 RE_STATES = re.compile(r"(\d+) states generated, (\d+) distinct states found, (\d+) states left on queue")
@@ -301,6 +303,8 @@ def validate_trace(ctx, module, trace_path, stateless=False, chunk_events=40000,
                 if m:
                     local_rej.append((int(m.group(1)), m.group(2) or ""))
                     continue
+                if line.startswith('<< "REJECT"') or line.startswith('<<"REJECT"'):
+                    raise ToolError("unparsable (wrapped?) REJECT line in %s: %s" % (out, line[:200]))
                 m = RE_UNCONS.match(line)
                 if m:
                     uncons = int(m.group(1))
